@@ -97,6 +97,17 @@ theorem ackCapped_le_sent {f : Facts} (hcap : f.ackCap = true) (off sent : Nat) 
 theorem ackCapped_le_off (f : Facts) (off sent : Nat) : ackCapped f off sent ≤ off := by
   unfold ackCapped; split <;> omega
 
+theorem resumeBumps_gt {f : Facts} {off acked sent : Nat} (h : resumeBumps f off acked sent = true) : off > acked := by
+  simp [resumeBumps] at h; exact h.1
+
+theorem resumeBumps_le {f : Facts} (hcap : f.resumeCap = true) {off acked sent : Nat}
+    (h : resumeBumps f off acked sent = true) : off ≤ sent := by
+  simp [resumeBumps, hcap] at h; exact h.2
+
+theorem resumeBumps_iff {f : Facts} (hcap : f.resumeCap = true) (off acked sent : Nat) :
+    resumeBumps f off acked sent = true ↔ (off > acked ∧ off ≤ sent) := by
+  simp [resumeBumps, hcap]
+
 theorem evict_cons (f : Facts) (cap : Nat) (c : Chunk) (cs : List Chunk) (held : Nat) :
     evict f cap (c :: cs) held =
       if evictGuard f held cap (cs.length + 1) then evict f cap cs (held - c.wireLen) else (c :: cs, held) := by
@@ -115,7 +126,7 @@ theorem evictGuard_keep {f : Facts} (hk : f.evictKeepOne = true) {held cap len :
 
 /-! ### C11: accounting invariants -/
 
-theorem step_acked_le_sent {f : Facts} {m : OvMode} (hcap : f.ackCap = true) (s : State) (op : Op)
+theorem step_acked_le_sent {f : Facts} {m : OvMode} (hcap : f.ackCap = true) (hres : f.resumeCap = true) (s : State) (op : Op)
     (h : s.acked ≤ s.sent) : (step f m s op).1.acked ≤ (step f m s op).1.sent := by
   unfold step
   by_cases hp : s.poisoned = true
@@ -144,7 +155,7 @@ theorem step_acked_le_sent {f : Facts} {m : OvMode} (hcap : f.ackCap = true) (s 
         · exact h
         · split
           · split
-            · rename_i hb; simp; exact hb.2
+            · rename_i hb; simp; exact resumeBumps_le hres hb
             · exact h
           · exact h
           · simp [poison]; exact h
@@ -155,9 +166,8 @@ theorem step_acked_le_sent {f : Facts} {m : OvMode} (hcap : f.ackCap = true) (s 
       · split <;> first | exact h | (simp [poison]; exact h)
     | waitReconnect =>
       simp only
-      split
-      · exact h
-      · split <;> exact h
+      repeat' split
+      all_goals exact h
     | pushReplay off dlen last body =>
       simp only
       split
@@ -194,7 +204,7 @@ theorem step_inFlight_le {f : Facts} {m : OvMode} (s : State) (op : Op)
         · exact Nat.le_refl _
         · split
           · split
-            · rename_i hb; simp; omega
+            · rename_i hb; have := resumeBumps_gt hb; simp; omega
             · exact Nat.le_refl _
           · exact Nat.le_refl _
           · simp [poison]
@@ -205,9 +215,8 @@ theorem step_inFlight_le {f : Facts} {m : OvMode} (s : State) (op : Op)
       · split <;> first | exact Nat.le_refl _ | simp [poison]
     | waitReconnect =>
       simp only
-      split
-      · exact Nat.le_refl _
-      · split <;> exact Nat.le_refl _
+      repeat' split
+      all_goals exact Nat.le_refl _
     | pushReplay off dlen last body =>
       simp only
       split
@@ -433,21 +442,21 @@ theorem Follows.prefix {f : Facts} {m : OvMode} (a b : List Op) (s : State) (g :
 
 /-! ### C11: cancellation -/
 
-theorem step_cancel_sticky {f : Facts} {m : OvMode} (s : State) (op : Op) (r : Nat)
+theorem step_cancel_sticky {f : Facts} {m : OvMode} (hk : f.advanceKeepsCancel = true) (s : State) (op : Op) (r : Nat)
     (h : s.cancelled = some r) : (step f m s op).1.cancelled = some r := by
   unfold step
   by_cases hp : s.poisoned = true
   · simp [hp, h]
   · simp only [hp, if_false, Bool.false_eq_true]
-    cases op <;> simp only [h, poison] <;> repeat' split
+    cases op <;> simp only [h, hk, poison] <;> repeat' split
     all_goals first | exact h | simp_all
 
-theorem cancelled_waits {f : Facts} {m : OvMode} (s : State) (r : Nat)
+theorem cancelled_waits {f : Facts} {m : OvMode} (hcf : f.reconnCancelFirst = true) (s : State) (r : Nat)
     (hp : s.poisoned = false) (h : s.cancelled = some r) :
     (∀ len, step f m s (.waitCredit len) = (s, .creditCancelled r)) ∧
     step f m s .waitReconnect = (s, .reconnCancelled r) ∧
     (∀ p file off, step f m s (.requestResume p file off) = (s, .resumeCancelled)) := by
-  refine ⟨?_, ?_, ?_⟩ <;> intros <;> simp [step, hp, h]
+  refine ⟨?_, ?_, ?_⟩ <;> intros <;> simp [step, hp, h, hcf]
 
 /-! ### the ring -/
 
@@ -692,6 +701,29 @@ theorem replay_tail {l : List Chunk} (hc : Contig l) {off : Nat} (hb : Boundary 
     · have : c ∈ replayFrom l off := replayFrom_mem.mpr ⟨hcm, by omega⟩
       simp [hnil] at this
     · exact Or.inr h
+
+/-! ### the idle watchdog only ever cancels -/
+
+/-- `cancel` changes nothing but an empty cancel slot. -/
+theorem step_cancel_eq {f : Facts} {m : OvMode} (s : State) (r : Nat) :
+    (step f m s (.cancel r)).1 = if s.poisoned = false ∧ s.cancelled = none then { s with cancelled := some r } else s := by
+  unfold step
+  by_cases hp : s.poisoned = true
+  · simp [hp]
+  · have hpf : s.poisoned = false := by simpa using hp
+    cases hc : s.cancelled <;> simp [hpf, hc]
+
+/-- Whatever the watchdog saw and whatever the clock says, a visit leaves every field alone except that it
+may fill an empty cancel slot with the idle reason. -/
+theorem watchdog_visit_effect {f : Facts} {m : OvMode} (s : State) (saw idle : Bool) :
+    run f m s (watchdogVisit saw idle) = s ∨
+    (s.cancelled = none ∧ run f m s (watchdogVisit saw idle) = { s with cancelled := some idleReason }) := by
+  unfold watchdogVisit
+  cases saw <;> cases idle <;> simp [run]
+  rw [step_cancel_eq]
+  by_cases h : s.poisoned = false ∧ s.cancelled = none
+  · simp [h]
+  · simp [h]
 
 /-! ### the release profile never panics -/
 
@@ -1049,7 +1081,7 @@ theorem resume_accept_iff {f : Facts} {m : OvMode} (s : State) (p file off : Nat
 
 /-- What an accepted resume changes: the peer slot, the pending resume, and (only within `acked < off ≤ sent`)
 the acknowledged offset. -/
-theorem resume_effect {f : Facts} {m : OvMode} (s : State) (p file off : Nat)
+theorem resume_effect {f : Facts} {m : OvMode} (hcap : f.resumeCap = true) (s : State) (p file off : Nat)
     (h : (step f m s (.requestResume p file off)).2 = .resumeOk off) :
     (step f m s (.requestResume p file off)).1 =
       { s with peer := some p, pending := some off,
@@ -1068,7 +1100,13 @@ theorem resume_effect {f : Facts} {m : OvMode} (s : State) (p file off : Nat)
         cases hcov : covers f m s.chunks off with
         | ok b =>
           cases b with
-          | true => simp only; split <;> rfl
+          | true =>
+            simp only
+            by_cases hb : resumeBumps f off s.acked s.sent = true
+            · have := (resumeBumps_iff hcap off s.acked s.sent).mp hb
+              simp [hb, this]
+            · have : ¬ (off > s.acked ∧ off ≤ s.sent) := fun h' => hb ((resumeBumps_iff hcap _ _ _).mpr h')
+              simp [hb, this]
           | false => simp [hcov] at h
         | err e => simp [hcov, poison] at h
         | panic => simp [hcov, poison] at h
